@@ -50,7 +50,7 @@ Definition outcome := (ledger * ret * list regrec * list regrec)%type.
 
 Definition spec_step (L : ledger) (o : cop) : outcome :=
   match o with
-  | RegUtility c p n i f =>
+  | RegUtility c p n i f _ =>
       match find (u_key p n) (l_u L) with
       | Some (_, _, oc, oi, of) =>
           if v_eq oc c && Nat.eqb oi i then (L, RNone, [], [])          (* equal (component, info): no-op *)
@@ -67,7 +67,7 @@ Definition spec_step (L : ledger) (o : cop) : outcome :=
           else (L, RBool false, [], [])
       | None => (L, RBool false, [], [])
       end
-  | RegAdapter f req p n i =>
+  | RegAdapter f req p n i _ =>
       let q := map conv req in
       match find (a_key q p n) (l_a L) with
       | Some (_, _, _, of, oi) =>
@@ -86,7 +86,7 @@ Definition spec_step (L : ledger) (o : cop) : outcome :=
           else (L, RBool false, [], [])
       | None => (L, RBool false, [], [])
       end
-  | RegSub f req p n i =>
+  | RegSub f req p n i _ =>
       if negb (Nat.eqb n 0) then (L, RTypeError, [], [])                 (* named subscribers unsupported *)
       else let q := map conv req in
            (mkL (l_u L) (l_a L) (l_s L ++ [(q, p, f, i)]) (l_h L), RNone, [], [RS q p (Some f) i])
@@ -96,7 +96,7 @@ Definition spec_step (L : ledger) (o : cop) : outcome :=
            let gone := filter (s_sel f q p) (l_s L) in
            (mkL (l_u L) (l_a L) (filter (fun r => negb (s_sel f q p r)) (l_s L)) (l_h L),
             RBool (nonempty gone), map rec_s gone, [])
-  | RegHandler f req n i =>
+  | RegHandler f req n i _ =>
       if negb (Nat.eqb n 0) then (L, RTypeError, [], [])
       else let q := map conv req in
            (mkL (l_u L) (l_a L) (l_s L) (l_h L ++ [(q, f, i)]), RNone, [], [RH q (Some f) i])
@@ -163,9 +163,18 @@ Definition ev_ok (seen expected : event) : bool :=
   | _, _ => false
   end.
 
+(* a register call made with ``event=False`` does not announce what it added (an Unregistered
+   event for a registration it displaced is still due) *)
+Definition announces (o : cop) : bool :=
+  match o with
+  | RegUtility _ _ _ _ _ ev | RegAdapter _ _ _ _ _ ev | RegSub _ _ _ _ _ ev | RegHandler _ _ _ _ ev => ev
+  | _ => true
+  end.
+
 (* exactly one Unregistered per removed registration, then one Registered per added one *)
-Definition events_ok (seen : list event) (x : outcome) : bool :=
-  forall2b ev_ok seen (map Unregistered (o_removed x) ++ map Registered (o_added x)).
+Definition events_ok (seen : list event) (o : cop) (x : outcome) : bool :=
+  forall2b ev_ok seen (map Unregistered (o_removed x)
+                       ++ (if announces o then map Registered (o_added x) else [])).
 
 (* ---- the two shapes on which the implementation is known to deviate (findings F9, F11);
    [benign] excludes them *)
@@ -176,7 +185,7 @@ Definition multi_removal (L : ledger) (o : cop) : bool :=          (* F9 *)
   end.
 Definition adapter_overwrite (L : ledger) (o : cop) : bool :=      (* F11 *)
   match o with
-  | RegAdapter f req p n i => match find (a_key (map conv req) p n) (l_a L) with Some _ => true | None => false end
+  | RegAdapter f req p n i _ => match find (a_key (map conv req) p n) (l_a L) with Some _ => true | None => false end
   | _ => false
   end.
 Definition benign (L : ledger) (o : cop) : bool := negb (multi_removal L o) && negb (adapter_overwrite L o).
@@ -184,7 +193,7 @@ Definition benign (L : ledger) (o : cop) : bool := negb (multi_removal L o) && n
 (* what the implementation does emit in those two shapes (used by the tie to recognise a known
    finding exactly, never to excuse anything else) *)
 Definition events_ok_tolerant (tolF9 tolF11 : bool) (L : ledger) (o : cop) (seen : list event) : bool :=
-  events_ok seen (spec_step L o)
+  events_ok seen o (spec_step L o)
   || (tolF9 && multi_removal L o &&
       match seen, o_removed (spec_step L o) with
       | [Unregistered r], r' :: _ => designates r r'
@@ -192,7 +201,8 @@ Definition events_ok_tolerant (tolF9 tolF11 : bool) (L : ledger) (o : cop) (seen
       end)
   || (tolF11 && adapter_overwrite L o &&
       match seen, o with
-      | [Registered r], RegAdapter f req p n i => regrec_eqb r (RA (map conv req) p n f i)
+      | [Registered r], RegAdapter f req p n i true => regrec_eqb r (RA (map conv req) p n f i)
+      | [], RegAdapter f req p n i false => true
       | _, _ => false
       end).
 
@@ -280,30 +290,44 @@ Section Queries.
   Definition u_name (r : urec) : name := let '(_, n, _, _, _) := r in n.
   Definition u_prov (r : urec) : spec := let '(p, _, _, _, _) := r in p.
 
+  (* The oracles take the ledgers of the object's current base chain, nearest first: a nearer
+     object's registrations win over those of its bases (single lookups, per name), and
+     everything applicable along the chain is returned by the "all" queries. *)
+
   (* queryUtility(p, n) answered [ans] (a component identity, or None) *)
-  Definition q_queryUtility (L : ledger) (p : spec) (n : name) (ans : option nat) : bool :=
-    match ans with
-    | None => negb (nonempty (u_cands L p n))
-    | Some v => existsb (fun r => Nat.eqb (vid (u_comp r)) v) (u_cands L p n)
+  Fixpoint q_queryUtility (Ls : list ledger) (p : spec) (n : name) (ans : option nat) : bool :=
+    match Ls with
+    | [] => match ans with None => true | Some _ => false end
+    | L :: Ls' =>
+        match u_cands L p n with
+        | [] => q_queryUtility Ls' p n ans
+        | cs => match ans with
+                | None => false
+                | Some v => existsb (fun r => Nat.eqb (vid (u_comp r)) v) cs
+                end
+        end
     end.
 
   (* getUtilitiesFor(p) answered the (name, component) pairs [ans] *)
-  Definition q_getUtilitiesFor (L : ledger) (p : spec) (ans : list (name * nat)) : bool :=
+  Definition q_getUtilitiesFor (Ls : list ledger) (p : spec) (ans : list (name * nat)) : bool :=
     nodup_nat (map fst ans)
-    && forallb (fun nv => q_queryUtility L p (fst nv) (Some (snd nv))) ans
-    && forallb (fun r => negb (ext (u_prov r) p) || existsb (Nat.eqb (u_name r)) (map fst ans)) (l_u L).
+    && forallb (fun nv => q_queryUtility Ls p (fst nv) (Some (snd nv))) ans
+    && forallb (fun L => forallb (fun r => negb (ext (u_prov r) p) || existsb (Nat.eqb (u_name r)) (map fst ans)) (l_u L)) Ls.
 
-  (* getAllUtilitiesRegisteredFor(p) answered components with the equality classes [ans]: one
-     component per distinct (provided, ==-class) among the registrations whose provided extends p.
-     The representative of a class may be any object equal to the live ones (the implementation
-     keeps the first one subscribed while an equal one is still registered), so classes are
-     compared, as a bag. *)
-  Definition q_getAllUtilities (L : ledger) (p : spec) (ans : list nat) : bool :=
-    let live := filter (fun r => ext (u_prov r) p) (l_u L) in
-    let provs := dedup_nat (map u_prov live) in
-    let expected := flat_map (fun p' => dedup_nat (map (fun r => veq (u_comp r))
-                                                     (filter (fun r => Nat.eqb (u_prov r) p') live))) provs in
-    same_bag ans expected.
+  (* getAllUtilitiesRegisteredFor(p) answered the components [ans] = (identity, equality class):
+     per object of the chain, one component per distinct (provided, ==-class) among the
+     registrations whose provided extends p (classes compared as a bag), and every component
+     returned is one of those live utilities.  [lenient] drops the second clause: the
+     implementation keeps the FIRST component of a class subscribed while an equal one is still
+     registered, so it can hand out an object that was unregistered (finding F13). *)
+  Definition u_live (L : ledger) (p : spec) : list urec := filter (fun r => ext (u_prov r) p) (l_u L).
+  Definition u_classes (L : ledger) (p : spec) : list nat :=
+    let live := u_live L p in
+    flat_map (fun p' => dedup_nat (map (fun r => veq (u_comp r)) (filter (fun r => Nat.eqb (u_prov r) p') live)))
+             (dedup_nat (map u_prov live)).
+  Definition q_getAllUtilities (lenient : bool) (Ls : list ledger) (p : spec) (ans : list (nat * nat)) : bool :=
+    same_bag (map snd ans) (flat_map (fun L => u_classes L p) Ls)
+    && (lenient || forallb (fun a => existsb (fun L => existsb (fun r => Nat.eqb (vid (u_comp r)) (fst a)) (u_live L p)) Ls) ans).
 
   (* adapters *)
   Definition a_req (r : arec) : list spec := let '(q, _, _, _, _) := r in q.
@@ -316,36 +340,41 @@ Section Queries.
     filter (fun r => forallb (fun r' => lex_le (rank (a_req r) provs) (rank (a_req r') provs)) cs) cs.
 
   (* queryAdapter / queryMultiAdapter(objects, p, n) answered [ans]; objects = (provides, id) *)
-  Definition q_queryMultiAdapter (L : ledger) (os : list cobj) (p : spec) (n : name) (ans : option nat) : bool :=
-    match a_best L (map fst os) p n with
+  Fixpoint q_queryMultiAdapter (Ls : list ledger) (os : list cobj) (p : spec) (n : name) (ans : option nat) : bool :=
+    match Ls with
     | [] => match ans with None => true | Some _ => false end
-    | best => existsb (fun r => onat_eqb (call (a_fac r) (map snd os)) ans) best
+    | L :: Ls' =>
+        match a_best L (map fst os) p n with
+        | [] => q_queryMultiAdapter Ls' os p n ans
+        | best => existsb (fun r => onat_eqb (call (a_fac r) (map snd os)) ans) best
+        end
     end.
 
   (* getAdapters(objects, p) answered the (name, result) pairs [ans] *)
-  Definition q_getAdapters (L : ledger) (os : list cobj) (p : spec) (ans : list (name * nat)) : bool :=
+  Definition q_getAdapters (Ls : list ledger) (os : list cobj) (p : spec) (ans : list (name * nat)) : bool :=
     let provs := map fst os in
-    let names := dedup_nat (map a_name (filter (fun r => let '(q, p', _, _, _) := r in ext p' p && applicable q provs) (l_a L))) in
+    let names := dedup_nat (flat_map (fun L => map a_name (filter (fun r => let '(q, p', _, _, _) := r in
+                                                                             ext p' p && applicable q provs) (l_a L))) Ls) in
     nodup_nat (map fst ans)
     && forallb (fun nr => existsb (Nat.eqb (fst nr)) names) ans
-    && forallb (fun n => q_queryMultiAdapter L os p n
+    && forallb (fun n => q_queryMultiAdapter Ls os p n
                            (match find (fun nr => Nat.eqb (fst nr) n) ans with Some nr => Some (snd nr) | None => None end))
                names.
 
-  (* subscribers(objects, p): every applicable subscription adapter is called once per
+  (* subscribers(objects, p): every applicable subscription adapter of the chain is called once per
      registration; the results are the non-None returns.  Bags (the order is C07's subject). *)
-  Definition q_subscribers (L : ledger) (os : list cobj) (p : spec) (results called : list nat) : bool :=
+  Definition q_subscribers (Ls : list ledger) (os : list cobj) (p : spec) (results called : list nat) : bool :=
     let provs := map fst os in
-    let subs := filter (fun r => let '(q, p', _, _) := r in ext p' p && applicable q provs) (l_s L) in
-    let fs := map (fun r => let '(_, _, f, _) := r in f) subs in
+    let fs := flat_map (fun L => map (fun r => let '(_, _, f, _) := r in f)
+                                     (filter (fun r => let '(q, p', _, _) := r in ext p' p && applicable q provs) (l_s L))) Ls in
     same_bag called (map vid fs)
     && same_bag results (flat_map (fun f => match call f (map snd os) with Some x => [x] | None => [] end) fs).
 
-  (* handle(objects): every applicable handler is called once per registration *)
-  Definition q_handle (L : ledger) (os : list cobj) (called : list nat) : bool :=
+  (* handle(objects): every applicable handler of the chain is called once per registration *)
+  Definition q_handle (Ls : list ledger) (os : list cobj) (called : list nat) : bool :=
     let provs := map fst os in
-    let hs := filter (fun r => let '(q, _, _) := r in applicable q provs) (l_h L) in
-    same_bag called (map (fun r => let '(_, f, _) := r in vid f) hs).
+    same_bag called (flat_map (fun L => map (fun r => let '(_, f, _) := r in vid f)
+                                            (filter (fun r => let '(q, _, _) := r in applicable q provs) (l_h L))) Ls).
 
   (* rebuildUtilityRegistryFromLocalCache(): nothing needed, one "did not" per utility *)
   Definition q_probe (L : ledger) (ans : nat * nat * nat * nat) : bool :=
